@@ -53,6 +53,37 @@ def m_instant_sub(it, name, a):
     return Adt('Duration', None, [z3.If(x >= y, x - y, 0)])
 
 
+@model(exact=('Instant::checked_duration_since', 'std::time::Instant::checked_duration_since'))
+def m_instant_checked_since(it, name, a):
+    x, y = it.deref(a[0]).f[0], it.deref(a[1]).f[0]
+    ge = x >= y
+    if it.decide(ge):
+        return some(Adt('Duration', None, [x - y]))
+    return none()
+
+
+@model(exact=('Instant::checked_sub', 'std::time::Instant::checked_sub'))
+def m_instant_checked_sub(it, name, a):
+    return some(Adt('Instant', None, [it.deref(a[0]).f[0] - it.deref(a[1]).f[0]]))
+
+
+@model(exact=('Duration::saturating_sub', 'Duration::checked_sub', 'Duration::as_secs', 'Duration::subsec_millis', 'Duration::is_zero', 'Duration::from_micros', 'Duration::from_nanos'))
+def m_duration_misc(it, name, a):
+    op = _meth(name)
+    x = it.deref(a[0]).f[0] if isinstance(it.deref(a[0]), Adt) else a[0]
+    if op == 'saturating_sub':
+        y = it.deref(a[1]).f[0]
+        return Adt('Duration', None, [z3.If(x >= y, x - y, 0) if (z3.is_expr(x) or z3.is_expr(y)) else max(0, x - y)])
+    if op == 'checked_sub':
+        y = it.deref(a[1]).f[0]
+        if it.decide(x >= y):
+            return some(Adt('Duration', None, [x - y]))
+        return none()
+    if op == 'is_zero':
+        return x == 0
+    raise Unsupported(name)
+
+
 @model(r'<Instant as Sub<Duration>>::sub')
 def m_instant_sub_dur(it, name, a):
     return Adt('Instant', None, [it.deref(a[0]).f[0] - it.deref(a[1]).f[0]])
